@@ -126,6 +126,9 @@ class Runner:
                     else:
                         r = c.delete(ks[0])
                         res = "default" if r is False else "value"
+                elif op == "dm":
+                    r = c.delete_many(ks)
+                    res = "value" if r is True else "other:" + repr(r)[:20]
                 elif op == "g":
                     r = c.get_many(ks)
                     res = "multi:" + "".join("1" if k in r else "0" for k in ks)
@@ -148,7 +151,7 @@ class Runner:
 
 def ev_text(e):
     now, oserr, other, op, keys = e
-    lop = {"c": "c", "set": "c", "delete": "c", "g": "g", "s": "s"}[op]
+    lop = {"c": "c", "set": "c", "delete": "c", "g": "g", "s": "s", "dm": "dm"}[op]
     return "ev=%d/%s/%s/%s/%s" % (now, ",".join(map(str, oserr)), ",".join(map(str, other)), lop, ";".join(",".join(map(str, k)) for k in keys))
 
 
@@ -315,6 +318,33 @@ def main(argv):
         ctx.count("random-histories")
         lines.append(f"failover cfg={ra},{rt},{dt},{int(ign)} n={n} t0=0 " + " ".join(ev_text(e) for e in evs))
         metas.append((cfg, n, evs, out, tags))
+    # ---- delete_many: a loop of key-addressed deletes inside ONE public call - several keys of one failing server, keys of several servers; judged
+    #      by the same monitor (what may escape, window bounds, never bypassed, recovery); monitor only (the composed model HashCallMany is compared
+    #      with the real class in the differential below) -----------------------------------------------------------------------------------------
+    dm_hists = []
+    for n in (2, 3):
+        two0 = [(0, 1), (0, 1)]
+        mixed = [(0, 1), (1, 0), (0, 1), (1, 0)] if n == 2 else [(0, 1, 2), (1, 2, 0), (0, 2, 1), (2, 0, 1)]
+        dm_hists += [(n, [(1, [0], [], "dm", two0)]), (n, [(1, [0], [], "dm", two0), (2, [0], [], "dm", two0), (3, [0], [], "c", [(0, 1)])]),
+                     (n, [(1, [0], [], "dm", mixed), (1, [0], [], "dm", mixed), (12, [0], [], "dm", mixed), (13, [0], [], "dm", two0), (80, [], [], "dm", mixed), (200, [], [], "c", [(0, 1)])]),
+                     (n, [(1, [0], [], "c", [(0, 1)]), (2, [0], [], "dm", two0 + two0), (3, [0], [], "g", two0)]),
+                     (n, [(1, [], [0], "dm", two0), (2, [0, 1], [], "dm", mixed), (3, [0, 1], [], "dm", mixed), (100, [], [], "dm", mixed), (200, [], [], "dm", mixed)])]
+        for _ in range(60 if ctx.thorough else 12):
+            t_, evs_ = 0, []
+            for _ in range(rng.randrange(2, 9)):
+                t_ += rng.choice([0, 1, 1, 11, 61, 130])
+                down = [sv for sv in range(n) if rng.random() < .4]
+                opx = rng.choice(["dm", "dm", "c", "g"])
+                evs_.append((t_, down, [], opx, [tuple(rng.sample(range(n), n)) for _ in range(1 if opx == "c" else rng.randrange(2, 5))]))
+            dm_hists.append((n, evs_))
+    for n, evs in dm_hists:
+        for ign in (False, True):
+            for ra in (0, 1, 2):
+                cfg = (ra, 10, 60, ign)
+                out, logs, _c = R.run(cfg, n, evs)
+                ctx.case(("delete_many", cfg, n, tuple(map(ev_text, evs))))
+                ctx.count("delete_many-histories")
+                monitor(ctx, cfg, n, evs, out, logs, ["delete_many"], R.snaps)
     # ---- the same window bounds with REAL inner Client objects (the scripted client_class above ignores the constructor arguments the
     #      HashClient passes down): a server that refuses connections, read and write traffic on its keys, contacts = connect() attempts ---------
     from fakesock import FakeSocketModule, World
